@@ -235,6 +235,10 @@ class CoercerMethod(DeserializationMethod):
     method: DeserializationMethod
 
     def deserialize(self, data: Any) -> Any:
+        if isinstance(data, Discriminated):
+            # the alternative of a discriminated union: coerce the wrapped data
+            data = Discriminated(data.discriminator, self.coercer(self.cls, data.data))
+            return self.method.deserialize(data)
         return self.method.deserialize(self.coercer(self.cls, data))
 
 
